@@ -317,6 +317,12 @@ class AgentsPlugin(Plugin):
                     if mine:
                         mon.viol("C20", "arb_acted_while_not_running", {"agent": agent.name})
                     continue
+                if not all(agent.is_market_accessible(c.market_id) for c in comps):
+                    # no hedged basket exists within the markets the agent can access: it has to leave this index alone
+                    mon.probe("arb_index_with_inaccessible_component")
+                    if mine:
+                        mon.viol("C20", "arb_basket", {"agent": agent.name, "index": m.name, "acted_without_access_to_every_component": True})
+                    continue
                 idx = m.get_index()
                 px = m.get_market_price()
                 gap = px - idx
